@@ -180,3 +180,33 @@ def lock_order(ctx, rid, floor=2):
     ctx.check(not cyc, rid, "order:acyclic", "lock-order graph acyclic (%d locks, %d edges)" % (len(locks), sum(len(v) for v in edges.values())),
               None, [{"cycle": [lock_short(x) for x in c], "witness": [witnesses.get((c[i], c[i + 1])) for i in range(len(c) - 1)]} for c in cyc[:3]])
     return edges, witnesses
+
+
+def cleanup_on_every_path(ctx, rid, floor=1):
+    """the destructor that takes an instance's registrations out of the registry does so on every path: in its normal form, every path from
+    entry to return runs through the unregistering code (the call, or the loop around it) — in particular the `Err(poisoned)` outcome of
+    whatever gives access to the id table (`lock()`, `get_mut()`, `into_inner()`) must not skip it. A refusal by panic inside add_signal
+    happens while the table's mutex is held and poisons it; an instance dropped afterwards still has registrations to remove."""
+    from .nf import NF
+    F = ctx.F
+    ctx.rule(rid, "the destructor releasing an instance's registrations reaches the unregistering code on every path to its return (a poisoned "
+                  "id-table mutex does not make it skip the clean-up)", floor=floor)
+    ds = [d for d in drops_reaching(F, "signal_hook_registry::unregister") if d.crate == "signal_hook"]
+    if not ds:
+        raise AnchorLost("no signal-hook destructor reaches signal_hook_registry::unregister")
+    for d in ds:
+        ctx.fn(d)
+        n = NF(F, d)
+        un = {bb for bb, t in n.calls() if t.get("f") is not None and any(F.inst[x].defp == "signal_hook_registry::unregister" for x in set(F.reach([F.inst[t["f"]]])) | {t["f"]})}
+        un = {b for b in un if not n.blocks[b].get("dead") and not n.blocks[b].get("cleanup")}
+        if not un:
+            raise AnchorLost("unregister call in the normal form of %s" % d.name)
+        region = set(un)
+        for comp in cfg.cycles(n, unwind=False):
+            if comp & un:
+                region |= comp
+        rets = [b for b in range(n.nblocks()) if n.term(b)["k"] == "return" and not n.blocks[b].get("dead")]
+        r = cfg.reachable(n, 0, avoid=region, unwind=False) if 0 not in region else set()
+        skipped = sorted(set(rets) & r)
+        ctx.check(not skipped, rid, "cleanup:%s" % keyname(d.name), "%s runs through its unregistering code on every path" % keyname(d.name).split("::")[-2:][0], d.span,
+                  {"path_skipping_the_cleanup": [n.term(b)["sp"].split("/")[-1] for b in (cfg.path(n, 0, skipped[0], avoid=region, unwind=False) or [])][:10]} if skipped else None)
